@@ -948,6 +948,21 @@ pub fn stark_mutations(nrounds: usize, nsteps: usize, noracles: usize) -> Vec<Mu
     vec_muts(&mut m, "openings.auxiliary_polys_next", |p: &mut Sp| p.proof.openings.auxiliary_polys_next.as_mut(), e0);
     vec_muts(&mut m, "openings.quotient_polys", |p: &mut Sp| p.proof.openings.quotient_polys.as_mut(), e0);
     vec_muts(&mut m, "openings.ctl_zs_first", |p: &mut Sp| p.proof.openings.ctl_zs_first.as_mut(), F::ZERO);
+    // one element MOVED between two opening vectors (the batches keep their total length)
+    fn sopening(p: &mut Sp, k: usize) -> Option<&mut Vec<FE>> {
+        let o = &mut p.proof.openings;
+        match k { 0 => Some(&mut o.local_values), 1 => Some(&mut o.next_values), 2 => o.auxiliary_polys.as_mut(), 3 => o.auxiliary_polys_next.as_mut(), _ => o.quotient_polys.as_mut() }
+    }
+    const SNAMES: [&str; 5] = ["local_values", "next_values", "auxiliary_polys", "auxiliary_polys_next", "quotient_polys"];
+    for a in 0..5usize {
+        for b in 0..5usize {
+            if a == b { continue; }
+            m.push((format!("openings: move last of {} to {}", SNAMES[a], SNAMES[b]), Box::new(move |p| {
+                let x = match sopening(p, a) { Some(v) => v.pop(), None => None };
+                if let (Some(x), Some(v)) = (x, sopening(p, b)) { v.push(x) }
+            })));
+        }
+    }
     for (nm, len) in [("Some(empty)", 0usize), ("Some(1 element)", 1), ("Some(3 elements)", 3)] {
         m.push((format!("openings.auxiliary_polys: Some<->None / {nm}"), Box::new(move |p| {
             p.proof.openings.auxiliary_polys = match &p.proof.openings.auxiliary_polys { Some(_) => None, None => Some(vec![FE::ZERO; len]) }
